@@ -515,7 +515,7 @@ def _eval_atoms(e, asg):
     raise _UnknownNode()
 
 
-def _zero_witness(x, facts):
+def _zero_witness(x, facts, ctx=None):
     """an assignment of the free values (parameters, getters, opaque call results: unsigned) under
     which every fact holds and x == 0; all facts must be evaluable -- otherwise no claim (None)"""
     import itertools
@@ -526,6 +526,32 @@ def _zero_witness(x, facts):
     atoms = sorted(atoms, key=repr)
     if not atoms or len(atoms) > 4:
         return None
+    # the result of a crate-local function is only a free value here if what it implies about
+    # its arguments is among the facts: a condition on such a call that the fact expansion could
+    # not open (loops, too many paths) may hide a relation that excludes the witness
+    if ctx is not None:
+        for a in atoms:
+            if a[0] not in ("call", "callat"):
+                continue
+            res = a[4] if a[0] == "callat" else a[3]
+            if not (isinstance(res, str) and res in ctx.prog.fns):
+                continue
+            args = a[3] if a[0] == "callat" else a[2]
+            inner = set()
+            for y in args:
+                _atoms_of(y, inner)
+            if not (inner & set(atoms)):
+                continue
+            about = [(fc, fv) for fc, fv in facts if _mentions(fc, a)]
+            if not about:
+                return None
+            for fc, fv in about:
+                try:
+                    opened = ctx.sym._expand_facts([(fc, fv)], [(fc, fv)])
+                except Exception:
+                    opened = None
+                if not opened:
+                    return None
     grid = [0, 1, 2, 3, 5, 7, 8, 9, 16, 255, 256, 1000, 3000, 9000, 16384, 65536, 1 << 20]
     try:
         for vals in itertools.product(grid, repeat=len(atoms)):
@@ -640,7 +666,7 @@ def unwraps(rep, prog, rule, only=None, floor=20):
                         if so[0] == "bin" and so[1] in ("Div", "Sub", "Shr", "Rem") and \
                                 not any(_mentions(fc, so) or _mentions(fc, strip_all(so[2])) for fc, fv in facts):
                             loose.append(o)
-                    wit = _zero_witness(x, facts)
+                    wit = _zero_witness(x, facts, ctx)
                     if wit is not None:
                         rep.bad(rule, key + "|zero-reachable", c.at,
                                 "NonZero::new(%s).unwrap() panics: the argument is 0 and every condition "
